@@ -8,7 +8,7 @@ from harness.nir_split import SplitTarget
 
 PID = "C39"
 ASSUMPTIONS = [
-    "scope: enable stays high (link in U0); partner link commands are observed as the decoded events (new_command, command, subtype) of LinkCommandDetector "
+    "scope: enable high, or low while the transmitter is quiescent (raw transmitter idle, every accepted header transmitted, no LBAD backlog): a link-down cycle forgets the session (bring-up, credits, unacknowledged headers, pointers) and the partner advertises again; partner link commands are observed as the decoded events (new_command, command, subtype) of LinkCommandDetector "
     "(its decoding is C35's subject), in any order and with any subtypes; header-queue and raw-transmitter timing are free",
     "partner's side (monitor returns None = vacuous from the first violation on): it never advertises more credits than it has buffers "
     "(unused credits + unacknowledged headers < n when an in-order LCRD arrives) and it acknowledges only headers transmitted since its last LBAD",
@@ -151,7 +151,7 @@ def mk_full(n=4, f_hz=125e6):
 
 
 def targets(tier):
-    ts = [mk_stub(1, 1, 1, 200), mk_full(4)]
+    ts = [mk_stub(1, 1, 1, 200), mk_stub(2, 1, 1, 200), mk_full(4)]
     if tier != "quick":
         ts += [mk_stub(2, 2, 1, 200), mk_stub(4, 3, 2, 1000), mk_full(2, 2000.0)]
     return ts
@@ -172,7 +172,7 @@ def stub_word(t, *, enable=1, qvalid=0, dw0=0, qseq=5, qdel=0, lrty=0, new=0, cm
 
 
 def stub_alphabet(t, tier):
-    """Explicit input alphabet of the R obligations: enable high; every combination of queue.valid, one payload bit,
+    """Explicit input alphabet of the R obligations: with enable high every combination of queue.valid, one payload bit,
     lrty_pending, finish, with one of the partner events: none, LGOOD s (all s), LCRD k (all k, and one out-of-range
     index), LBAD, LRTY.  (The sequence_number field offered by the protocol layer is 5: it must be overwritten.)"""
     n, sw = t.params["n"], t.params["sw"]
@@ -185,6 +185,10 @@ def stub_alphabet(t, tier):
                 for lr in (0, 1):
                     for fin in (0, 1):
                         ws.append(stub_word(t, qvalid=qv, dw0=d0, lrty=lr, new=new, cmd=cmd, sub=sub, finish=fin))
+    # link down (enable low): alone, with a header offered, and with a partner event in the same cycle
+    for new, cmd, sub in [(0, 0, 0), (1, LGOOD, 0), (1, LCRD, 0), (1, LBAD, 0)]:
+        for qv in (0, 1):
+            ws.append(stub_word(t, enable=0, qvalid=qv, dw0=qv, new=new, cmd=cmd, sub=sub))
     return "[" + "; ".join(str(w) for w in ws) + "]"
 
 
@@ -214,8 +218,19 @@ def stub_traces(target, rng, tier):
         up = False; free = n; nextcred = 0
         cmds = []              # (due cycle, cmd, sub)
         tr = []
+        # link drops in the middle of a session (every other closed-loop trace): once the transmitter is quiescent
+        # (nothing left to send, raw transmitter idle) enable goes low for 1..3 cycles with 0..n headers still
+        # unacknowledged; the partner then advertises again and the new session sees LBADs / LRTYs
+        drops = sorted(rng.sample(range(L // 4, L), k=min(2, L - L // 4))) if (k % 2 == 0 and not wild) else []
+        down = 0; busy = False; hold_acks = 0
         for t in range(L):
-            c = dict(enable=int(rng.random() >= p_off), queue_valid=int(rng.random() < p_q), q_dw0=rng.getrandbits(hw),
+            want_drop = bool(drops) and t >= drops[0]
+            if want_drop and rng.random() < 0.5:
+                hold_acks = 3                       # let some headers stay unacknowledged when the link drops
+            quiet = (ctx.get(outsig["packets_to_send"]) == 0) and not busy
+            if down == 0 and want_drop and quiet and up:
+                down = rng.randint(1, 3); drops.pop(0); p_lbad = rng.choice([0.1, 0.3]); adv = rng.randrange(1 << sw)
+            c = dict(enable=0 if down else int(rng.random() >= p_off), queue_valid=int(rng.random() < p_q), q_dw0=rng.getrandbits(hw),
                      q_seq=rng.getrandbits(3), q_delayed=int(rng.random() < 0.1), lrty_pending=int(rng.random() < 0.15),
                      new_command=0, command=0, subtype=0, finish=int(rng.random() < p_fin))
             if wild:
@@ -249,6 +264,11 @@ def stub_traces(target, rng, tier):
                     cmds.append((t + rng.randint(1, 6), LBAD, 0))
             if not c["enable"]:
                 up = False; free = n; nextcred = 0; cmds = []
+            if down:
+                down -= 1
+            if hold_acks and want_drop:
+                cmds = [x for x in cmds if x[1] != LGOOD or not up] if rng.random() < 0.5 else cmds
+            busy = (busy or bool(ctx.get(outsig["generate"]))) and not ctx.get(outsig["done"])
             tr.append(c)
             await ctx.tick("ss")
         holder["trace"] = tr
@@ -287,8 +307,16 @@ def full_traces(target, rng, tier):
         up = False; free = n; nextcred = 0
         cmds = []; words = []
         tr = []
+        # link drops mid-session (two traces out of three): see stub_traces
+        drops = sorted(rng.sample(range(L // 4, L), k=2)) if holder["k"] % 3 != 2 else []
+        down = 0; busy = False; drop_acks = False
         for t in range(L):
-            c = dict(enable=1, queue_valid=int(rng.random() < p_q), lrty_pending=int(rng.random() < 0.1),
+            want_drop = bool(drops) and t >= drops[0]
+            quiet = (ctx.get(outsig["packets_to_send"]) == 0) and not busy and not words
+            if down == 0 and want_drop and quiet and up:
+                down = rng.randint(1, 3); drops.pop(0); p_lbad = rng.choice([0.3, 0.6]); adv = rng.randrange(8)
+                up = False; free = n; nextcred = 0; cmds = []
+            c = dict(enable=0 if down else 1, queue_valid=int(rng.random() < p_q), lrty_pending=int(rng.random() < 0.1),
                      sink_valid=rng.choice([1, 1, 1, 0]), sink_data=0, sink_ctrl=0, source_ready=int(rng.random() < p_rdy))
             for f in QF:
                 c[f] = rng.getrandbits(QW[f])
@@ -315,13 +343,17 @@ def full_traces(target, rng, tier):
                 c.update(sink_data=rng.getrandbits(32), sink_ctrl=rng.choice([0, 15, rng.randrange(16)]))
             for nm, v in c.items():
                 ctx.set(insig[nm], v)
-            if ctx.get(outsig["done"]):
+            if ctx.get(outsig["done"]) and not down:
                 seqn = ctx.get(outsig["h_seq"])
+                late = want_drop and rng.random() < 0.6          # acknowledgement lost in the link drop
                 if rng.random() >= p_lbad:
-                    cmds.append((t + rng.randint(2, 8), LGOOD, seqn))
+                    cmds.append((t + (40 if late else rng.randint(2, 8)), LGOOD, seqn))
                     if rng.random() < 0.9: free += 1
                 else:
                     cmds.append((t + rng.randint(2, 8), LBAD, 0))
+            if down:
+                down -= 1
+            busy = (busy or bool(ctx.get(outsig["generate"]))) and not ctx.get(outsig["done"])
             tr.append(c)
             await ctx.tick("ss")
         holder["trace"] = tr
@@ -329,6 +361,7 @@ def full_traces(target, rng, tier):
     sim.add_testbench(tb)
     out = []
     for k in range(N):
+        holder["k"] = k
         sim.reset(); sim.run()
         out.append(holder["trace"])
     return out
@@ -352,8 +385,8 @@ def obligations(targets, tier):
                 obs.append(tie.rmon(f"sp_{t.name}", t, mon=spec, m0=f"(tp_enc {W_SPEC} tp_init)", alpha_bits=0, alphabet=alph,
                                     fuel=1000000,
                                     describe=f"PacketTransmitter bookkeeping (buffer_count={a['n']}, seq width {a['sw']}, stub detector / raw transmitter) "
-                                             f"satisfies the specification tp_mon on every trace over the explicit alphabet (enable high; queue.valid, payload bit, "
-                                             f"lrty_pending, finish free; partner events none / LGOOD s / LCRD k / LBAD / LRTY)"))
+                                             f"satisfies the specification tp_mon on every trace over the explicit alphabet (queue.valid, payload bit, "
+                                             f"lrty_pending, finish free; partner events none / LGOOD s / LCRD k / LBAD / LRTY; plus link-down cycles (enable low) alone, with a header offered, with LGOOD / LCRD / LBAD)"))
             if a["n"] <= 1:
                 W = 6
                 obs.append(tie.rmon(f"lk_{t.name}", t,
@@ -396,7 +429,7 @@ LEVEL_TEXT = (
     "a send dispatched in the LBAD cycle goes out without DL); the check passes with findings/C39-retry-bookkeeping-corner-cases.diff.")
 LEVEL_NOTE = (
     "The delivered model is the corrected behaviour (patched gateware); ./check C39 exits 1 (VIOLATION, confirmed on the simulator) on the tree as found and 0 with the patch. Safety only "
-    "(no claim that every accepted header is eventually transmitted). Disable / re-enable of the transmitter is out of scope (enable high is an assumption of the monitor). "
+    "(no claim that every accepted header is eventually transmitted). Link drops (enable low) are covered while the transmitter is quiescent (raw transmitter idle, nothing left to send, no LBAD backlog): the session is forgotten and the partner re-advertises; a drop in the middle of a transmission is outside the monitor's assumptions. "
     "No typed lock-step theorem for C39 (the packed-model lock-step is an R-monitor statement about the packed machine ptx_enc/ptx_dec; dec_enc is not proved), so netlist |= tp_mon is "
     "established directly on the netlist for the tied configurations and on the parametric model separately. Real configuration (n = 4, 128-bit headers, real detector / raw transmitter, "
     "no payloads) by correspondence + runtime oracle only.")
